@@ -16,6 +16,10 @@
                               the whole result (blocks, issues, ending, fixer) is a function of the accepted
                               blocks and of the (type, first cell) of the rejected ones: the handler is never
                               evaluated on a rejected block, so nothing inside it can raise.
+    * `agree_of_rowwise_edit`, `rejected_content_irrelevant_edit`
+                              the same stated on rows: two streams equal except after the first cell of one rejected
+                              block (same number of rows, still plain continuation rows) read identically.
+    * `gridName_is_table_name`  if a raw grid parses, the name it spells is the parsed table's name.
 -/
 import PdtModel.Model.Blocks
 import PdtModel.Props.C02
@@ -72,7 +76,7 @@ theorem Rel.refl (f : Fixer) : Rel f f := ⟨rfl, rfl, rfl⟩
 
 theorem rel_reset (f g : Fixer) (h : f.cfg = g.cfg) : Rel f.reset g.reset := ⟨h, rfl, rfl⟩
 
-theorem rel_illegal (f g : Fixer) (v : String) (h : Rel f g) : Rel (f.illegal v) (g.illegal v) := by
+theorem rel_illegal (f g : Fixer) (v : String) (x : Str) (h : Rel f g) : Rel (f.illegal v x) (g.illegal v x) := by
   obtain ⟨h1, h2, h3⟩ := h
   exact ⟨h1, h2, by simp [Fixer.illegal, h3]⟩
 
@@ -84,11 +88,11 @@ def RelE {α : Type} (x y : Except PyExc (α × Fixer)) : Prop :=
   | _, _ => False
 
 theorem rel_parseWith {α : Type} (cellFn : Cell → Option α) (rep : FixCfg → α) (vt : String)
-    (cells : List Cell) (f g : Fixer) (h : Rel f g) :
-    (parseWith cellFn rep vt cells f).1 = (parseWith cellFn rep vt cells g).1 ∧
-    Rel (parseWith cellFn rep vt cells f).2 (parseWith cellFn rep vt cells g).2 := by
-  have a := C02.parseWith_spec cellFn rep vt cells f
-  have b := C02.parseWith_spec cellFn rep vt cells g
+    (txt : Cell → Str) (cells : List Cell) (f g : Fixer) (h : Rel f g) :
+    (parseWith cellFn rep vt txt cells f).1 = (parseWith cellFn rep vt txt cells g).1 ∧
+    Rel (parseWith cellFn rep vt txt cells f).2 (parseWith cellFn rep vt txt cells g).2 := by
+  have a := C02.parseWith_spec cellFn rep vt txt cells f
+  have b := C02.parseWith_spec cellFn rep vt txt cells g
   obtain ⟨h1, h2, h3⟩ := h
   refine ⟨by rw [a.1, b.1, h1], ?_, ?_, ?_⟩
   · rw [a.2.1, b.2.1]; exact h1
@@ -107,12 +111,11 @@ theorem rel_parseDatetime (ext : Ext) (cells : List Cell) (f g : Fixer) (h : Rel
       cases h1 : parseDatetime ext cs f <;> cases h2 : parseDatetime ext cs g <;>
         simp_all [RelE, bind, Except.bind, pure, Except.pure]
     | fix =>
-      have := ih (f.illegal "datetime") (g.illegal "datetime") (rel_illegal f g _ h)
+      have := ih (f.illegal "datetime" (dtTxt c)) (g.illegal "datetime" (dtTxt c)) (rel_illegal f g _ _ h)
       have hcfg : f.cfg = g.cfg := h.1
-      cases h1 : parseDatetime ext cs (f.illegal "datetime") <;>
-        cases h2 : parseDatetime ext cs (g.illegal "datetime") <;>
+      cases h1 : parseDatetime ext cs (f.illegal "datetime" (dtTxt c)) <;>
+        cases h2 : parseDatetime ext cs (g.illegal "datetime" (dtTxt c)) <;>
         simp_all [RelE, bind, Except.bind, pure, Except.pure]
-    | raiseValue => simp [RelE]
     | raises n => simp [RelE]
 
 theorem rel_parseColumn (ext : Ext) (unit : Str) (cells : List Cell) (f g : Fixer) (h : Rel f g) :
@@ -123,7 +126,7 @@ theorem rel_parseColumn (ext : Ext) (unit : Str) (cells : List Cell) (f g : Fixe
   · rw [if_neg h1, if_neg h1]
     by_cases h2 : unit = uOnoff
     · rw [if_pos h2, if_pos h2]
-      have := rel_parseWith onoffCell (·.repOnoff) "onoff" cells f g h
+      have := rel_parseWith onoffCell (·.repOnoff) "onoff" onoffTxt cells f g h
       show RelE (Except.ok (ColVals.onoff (parseOnoff cells f).1, (parseOnoff cells f).2))
         (Except.ok (ColVals.onoff (parseOnoff cells g).1, (parseOnoff cells g).2))
       unfold parseOnoff
@@ -135,7 +138,7 @@ theorem rel_parseColumn (ext : Ext) (unit : Str) (cells : List Cell) (f g : Fixe
         cases h1 : parseDatetime ext cells f <;> cases h2 : parseDatetime ext cells g <;>
           simp_all [RelE, bind, Except.bind, pure, Except.pure]
       · rw [if_neg h3, if_neg h3]
-        have := rel_parseWith (floatCell ext) (·.repFloat) "float" cells f g h
+        have := rel_parseWith (floatCell ext) (·.repFloat) "float" floatTxt cells f g h
         show RelE (Except.ok (ColVals.num (Reader.parseFloat ext cells f).1, (Reader.parseFloat ext cells f).2))
           (Except.ok (ColVals.num (Reader.parseFloat ext cells g).1, (Reader.parseFloat ext cells g).2))
         unfold Reader.parseFloat
@@ -696,6 +699,146 @@ theorem rejected_content_irrelevant_rows (cfg : Config) (rows rows' : List Row) 
     parseBlocks cfg rows f = parseBlocks cfg rows' f :=
   rejected_content_irrelevant cfg _ _ f h
 
+/-! ### the same on rows: an edit inside one rejected block -/
+
+section
+variable {R : Type} (kindOf : R → Kind)
+
+/-- the block type a first-cell kind starts -/
+def starter : Kind → Option BT
+  | .tbl => some .table
+  | .dir => some .directive
+  | .tpl => some .template
+  | _ => none
+
+theorem go_append (i : Nat) (s : St R) (p q : List R) :
+    go kindOf i s (p ++ q) =
+      (emitted kindOf i s p).1 ++ go kindOf (i + p.length) (emitted kindOf i s p).2 q := by
+  induction p generalizing i s with
+  | nil => simp [emitted]
+  | cons r rs ih => simp [go, emitted, ih, Nat.add_assoc, Nat.add_comm 1]
+
+theorem go_plain (i : Nat) (s : St R) (body post : List R) (hb : ∀ r ∈ body, kindOf r = .plain) :
+    go kindOf i s (body ++ post) = go kindOf (i + body.length) { s with grid := s.grid ++ body } post := by
+  induction body generalizing i s with
+  | nil => simp
+  | cons r rs ih =>
+    have hr := hb r (by simp)
+    simp only [List.cons_append, go, step, hr, List.nil_append]
+    rw [ih _ _ (fun x hx => hb x (List.mem_cons_of_mem _ hx))]
+    simp [Nat.add_assoc, Nat.add_comm 1]
+
+theorem step_start (s : St R) (i : Nat) (r : R) (ty : BT) (h : starter (kindOf r) = some ty) :
+    step kindOf s i r = (⟨[r], ty, i⟩, emit s) := by
+  unfold step switch
+  cases hk : kindOf r <;> simp_all [starter]
+
+/-- a row that is not a plain continuation row ends a TABLE / DIRECTIVE / TEMPLATE block; what comes next does not
+    depend on what the block held -/
+theorem step_end (grid : List R) (first i : Nat) (r : R) (k : Kind) (ty : BT) (hty : starter k = some ty)
+    (hk : kindOf r ≠ .plain) :
+    step kindOf ⟨grid, ty, first⟩ i r = ((step kindOf ⟨[], ty, 0⟩ i r).1, emit ⟨grid, ty, first⟩) := by
+  have hne : ty ≠ .blank ∧ ty ≠ .metadata := by
+    cases k <;> simp [starter] at hty <;> subst hty <;> exact ⟨by decide, by decide⟩
+  unfold step switch
+  cases h : kindOf r <;> simp_all
+
+/-- the blocks after a block that ended at row `i` -/
+def tailBlocks (ty : BT) (i : Nat) : List R → List (Block R)
+  | [] => []
+  | r :: rs => go kindOf (i + 1) (step kindOf ⟨[], ty, 0⟩ i r).1 rs
+
+/-- `pre ++ block ++ post` is cut into the blocks of `pre`, the block itself, and blocks that depend only on where
+    the block ended and on `post` -/
+theorem block_split (pre : List R) (h : R) (body post : List R) (ty : BT) (hh : starter (kindOf h) = some ty)
+    (hb : ∀ r ∈ body, kindOf r = .plain)
+    (hpost : post = [] ∨ ∃ r rest, post = r :: rest ∧ kindOf r ≠ .plain) :
+    run kindOf (pre ++ (h :: body) ++ post) =
+      run kindOf pre ++ (⟨ty, h :: body, pre.length⟩ : Block R) ::
+        tailBlocks kindOf ty (pre.length + 1 + body.length) post := by
+  unfold run
+  rw [List.append_assoc, go_append, C03.go_eq_emitted kindOf 0 initSt pre]
+  simp only [List.cons_append, go, Nat.zero_add, step_start kindOf _ _ h ty hh]
+  rw [go_plain kindOf _ _ body post hb]
+  rcases hpost with rfl | ⟨r, rest, rfl, hr⟩
+  · simp [go, emit, tailBlocks]
+  · simp only [go, tailBlocks]
+    rw [step_end kindOf ([h] ++ body) pre.length _ r (kindOf h) ty hh hr]
+    simp [emit]
+
+end
+
+theorem sameForFilter_refl (cfg : Config) (b : Block Row) : SameForFilter cfg b b := ⟨rfl, rfl, fun _ => rfl⟩
+
+theorem agree_refl (cfg : Config) (bs : List (Block Row)) : Agree cfg bs bs := by
+  induction bs with
+  | nil => exact .nil
+  | cons b bs ih => exact .cons (sameForFilter_refl cfg b) ih
+
+theorem agree_append (cfg : Config) (as as' bs bs' : List (Block Row)) (h1 : Agree cfg as as')
+    (h2 : Agree cfg bs bs') : Agree cfg (as ++ bs) (as' ++ bs') := by
+  induction h1 with
+  | nil => exact h2
+  | cons hb _ ih => exact .cons hb ih
+
+/-- **an edit inside one rejected block, on rows**: two row streams that are equal except inside one TABLE /
+    DIRECTIVE / TEMPLATE block — same first cell, same number of rows, the rows after the first still plain
+    continuation rows (same `rowKind` per row) — are cut into blocks the filter cannot tell apart, provided the
+    filter rejects that block.  The block is delimited by what follows it: nothing, or a row that is not a plain
+    continuation row. -/
+theorem agree_of_rowwise_edit (cfg : Config) (pre post : List Row) (c : Cell) (r r' : Row) (body body' : List Row)
+    (ty : BT) (hh : starter (rowKind (c :: r)) = some ty) (hh' : rowKind (c :: r') = rowKind (c :: r))
+    (hb : ∀ x ∈ body, rowKind x = .plain) (hb' : ∀ x ∈ body', rowKind x = .plain)
+    (hlen : body'.length = body.length)
+    (hpost : post = [] ∨ ∃ x rest, post = x :: rest ∧ rowKind x ≠ .plain)
+    (hrej : accepts cfg ty ((c :: r) :: body) = false) :
+    Agree cfg (segment (pre ++ ((c :: r) :: body) ++ post)) (segment (pre ++ ((c :: r') :: body') ++ post)) := by
+  unfold segment
+  rw [block_split rowKind pre (c :: r) body post ty hh hb hpost,
+    block_split rowKind pre (c :: r') body' post ty (by rw [hh']; exact hh) hb' hpost, hlen]
+  refine agree_append cfg _ _ _ _ (agree_refl cfg _) (.cons ⟨rfl, rfl, ?_⟩ (agree_refl cfg _))
+  intro hacc
+  rw [hrej] at hacc
+  cases hacc
+
+/-- **rejected_content_irrelevant on rows**: replacing everything after the first cell of a rejected block —
+    keeping its number of rows and keeping its rows plain continuation rows — changes nothing and raises nothing -/
+theorem rejected_content_irrelevant_edit (cfg : Config) (pre post : List Row) (c : Cell) (r r' : Row)
+    (body body' : List Row) (ty : BT) (hh : starter (rowKind (c :: r)) = some ty)
+    (hh' : rowKind (c :: r') = rowKind (c :: r))
+    (hb : ∀ x ∈ body, rowKind x = .plain) (hb' : ∀ x ∈ body', rowKind x = .plain)
+    (hlen : body'.length = body.length)
+    (hpost : post = [] ∨ ∃ x rest, post = x :: rest ∧ rowKind x ≠ .plain)
+    (hrej : accepts cfg ty ((c :: r) :: body) = false) (f : Fixer) :
+    parseBlocks cfg (pre ++ ((c :: r) :: body) ++ post) f = parseBlocks cfg (pre ++ ((c :: r') :: body') ++ post) f :=
+  rejected_content_irrelevant_rows cfg _ _ f
+    (agree_of_rowwise_edit cfg pre post c r r' body body' ty hh hh' hb hb' hlen hpost hrej)
+
+/-- when the number of rows of the rejected block changes, everything before it and the block's own verdict are
+    unchanged, and the blocks after it are those of `post` read from the row where the block now ends: only their
+    origin rows move -/
+theorem rowwise_edit_any_length (pre post : List Row) (c : Cell) (r : Row) (body : List Row) (ty : BT)
+    (hh : starter (rowKind (c :: r)) = some ty) (hb : ∀ x ∈ body, rowKind x = .plain)
+    (hpost : post = [] ∨ ∃ x rest, post = x :: rest ∧ rowKind x ≠ .plain) :
+    segment (pre ++ ((c :: r) :: body) ++ post) =
+      segment pre ++ (⟨ty, (c :: r) :: body, pre.length⟩ : Block Row) ::
+        tailBlocks rowKind ty (pre.length + 1 + body.length) post :=
+  block_split rowKind pre (c :: r) body post ty hh hb hpost
+
+/-- **the reported name of a raw grid**: if the grid parses as a table, the name its first cell spells
+    (`Spec.gridName`, what a `to="cellgrid"` block reports) is the parsed table's name -/
+theorem gridName_is_table_name (ext : Ext) (rows : List Row) (f : Fixer) (p : Precursor) (f' : Fixer)
+    (h : makeTable ext rows f = .ok (p, f')) : Spec.gridName rows = p.name := by
+  rw [(makeTable_spec ext rows f p f' h).2]
+  unfold Spec.gridName Blocks.offeredName
+  rfl
+
+theorem gridName_is_precursor_name (ext : Ext) (rows : List Row) (f : Fixer) (p : Precursor) (f' : Fixer)
+    (h : makePrecursor ext rows f = .ok (p, f')) : Spec.gridName rows = p.name := by
+  rw [(makePrecursor_spec ext rows f p f' h).2]
+  unfold Spec.gridName Blocks.offeredName
+  rfl
+
 /-- a decidable sufficient test for `Agree` (used for the concrete examples below) -/
 def agreeB (cfg : Config) : List (Block Row) → List (Block Row) → Bool
   | [], [] => true
@@ -780,5 +923,33 @@ example :
     parseBlocks (exCfg .pdtable (some exFilter) .raising) (exRows badA) exFixer =
     parseBlocks (exCfg .pdtable (some exFilter) .raising) (exRows badB) exFixer :=
   rejected_content_irrelevant_rows _ _ _ _ (agree_of_agreeB _ _ _ (by decide))
+
+/-- the hypotheses of `rejected_content_irrelevant_edit` on the same input, given on rows: the rejected table
+    `**bad` sits between `exPre` and `exPost`; its content is replaced keeping two plain rows -/
+def exPre : List Row :=
+  [[.str "author:".toList, .str "x".toList],
+   [.str "**a".toList], [.str "all".toList], [.str "x".toList], [.str "m".toList], [.str "1.5".toList],
+   []]
+
+def exPost : List Row :=
+  [[],
+   [.str "**c*".toList], [.str "all".toList], [.str "x".toList, .str "m".toList, .str "1.5".toList],
+   [],
+   [.str "***d".toList], [.str "l1".toList]]
+
+example : exRows badA = exPre ++ ([.str "**bad".toList] :: badA) ++ exPost := by decide
+
+example :
+    parseBlocks (exCfg .jsondata (some exFilter) .collecting) (exPre ++ ([.str "**bad".toList] :: badA) ++ exPost) exFixer =
+    parseBlocks (exCfg .jsondata (some exFilter) .collecting)
+      (exPre ++ ([.str "**bad".toList, .str "junk".toList] :: badB) ++ exPost) exFixer :=
+  rejected_content_irrelevant_edit _ exPre exPost (.str "**bad".toList) [] [.str "junk".toList] badA badB .table
+    (by decide) (by decide) (by decide) (by decide) (by decide) (Or.inr ⟨[], _, rfl, by decide⟩) (by decide) exFixer
+
+/-- `gridName_is_table_name` is not vacuous: a grid that parses, and the name both ways -/
+example : (makeTable C02.exampleExt [[.str "**c*".toList], [.str "all".toList],
+      [.str "x".toList, .str "m".toList, .str "1.5".toList]] exFixer).toOption.map (·.1.name) = some "c".toList ∧
+    Spec.gridName [[.str "**c*".toList], [.str "all".toList],
+      [.str "x".toList, .str "m".toList, .str "1.5".toList]] = "c".toList := by decide
 
 end Pdt.C11
